@@ -2,7 +2,7 @@
 import itertools, random
 KEYSETS = [["a"], ["a", "b"], ["b", "c.x"], ["c.x", "c.y"], [], ["a", "b", "c.x", "c.y"], ["c.y"]]
 OPT_KINDS = [("add", "raw"), ("add", "args"), ("set", "raw"), ("set", "args"), ("file", "file")]
-USER_LKS = ["ordm", "ordz", "ordp", "priom", "priop"]     # user-written loaders implementing Ordered / Priority
+USER_LKS = ["ordm", "ordz", "ordp", "priom", "priop", "markl"]     # user-written loaders implementing Ordered / Priority (markl: the Priority marker alone)
 
 
 def all_sequences(max_opts, keysets, vals=(1, 2)):
